@@ -234,8 +234,11 @@ def hygiene_grep():
         dd = os.path.join(COQ, d)
         for fn in sorted(os.listdir(dd)) if os.path.isdir(dd) else []:
             if fn.endswith('.v'):
-                with open(os.path.join(dd, fn), encoding='utf-8') as f:
-                    txt = re.sub(r'\(\*.*?\*\)', '', f.read(), flags=re.S)
+                try:
+                    with open(os.path.join(dd, fn), encoding='utf-8') as f:
+                        txt = re.sub(r'\(\*.*?\*\)', '', f.read(), flags=re.S)
+                except FileNotFoundError:
+                    continue
                 for m in pat.finditer(txt):
                     bad.append('%s/%s: %s' % (d, fn, m.group(1)))
     return bad
